@@ -822,8 +822,21 @@ void run_gradient(const Case& c, Result& r)
     r.tags.push_back("grad:" + c.s("map", "unit") + sf(":dims%d", nd));
 }
 
+// hook H3: named intermediate quantities reported by the library under the guard
+std::map<std::string, double>& observed()
+{
+    static std::map<std::string, double> m;
+    return m;
+}
+void observe_handler(const char* name, double value)
+{
+    observed()[name] = value;
+}
+
 void run_e2e(const Case& c, Result& r)
 {
+    tapkee::verif::observe_handler() = &observe_handler;
+    observed().clear();
     // three Gaussian clusters >= 10 sigma apart
     int N = (int)c.i("N", 60), D = (int)c.i("D", 4);
     Rng g((uint64_t)c.i("dseed", 1) * 13 + 1);
@@ -843,6 +856,16 @@ void run_e2e(const Case& c, Result& r)
     {
         r.violation("tsne:e2e-throws", o.what + ": " + o.message);
         return;
+    }
+    // the joint distribution the optimisation starts from must sum to one (observed through hook H3)
+    if (!observed().count("tsne:joint-mass"))
+        r.violation("tsne:e2e-joint-mass-not-observed", "the run did not report its joint similarity mass");
+    else
+    {
+        double mass = observed()["tsne:joint-mass"];
+        r.maxnum("e2e_joint_mass_dev", std::fabs(mass - 1.0));
+        if (!(std::fabs(mass - 1.0) <= 1e-9))
+            r.violation("tsne:e2e-joint-distribution-does-not-sum-to-one", sf("sum of the symmetrised similarities = %.12g (theta=%g)", mass, c.d("theta", 0.5)));
     }
     const Mat& Y = o.out.embedding;
     if (Y.rows() != N || Y.cols() != c.i("td", 2) || !Y.allFinite())
